@@ -144,6 +144,18 @@ This error occurs when the command line contains some errors. """
     pass
 
 
+class SeedAction(argparse.Action):
+    """Store the seed and initialize the random generator right away
+
+Graph arguments (e.g. `gnp 10 .5`) are sampled while the command line
+is parsed, therefore the generator must be seeded as soon as the
+`--seed` option is read."""
+    def __call__(self, parser, args, values, option_string=None):
+        import random
+        setattr(args, self.dest, values)
+        random.seed(values)
+
+
 class CLIHelpFormatter(argparse.RawDescriptionHelpFormatter):
     def _format_args(self, action, default_metavar):
         get_metavar = self._metavar_formatter(action, default_metavar)
